@@ -17,6 +17,7 @@ package orchestrator
 import (
 	"context"
 	"fmt"
+	"slices"
 
 	"github.com/conduitio/conduit-commons/rollback"
 	"github.com/conduitio/conduit/pkg/foundation/cerrors"
@@ -237,18 +238,24 @@ func (p *ProcessorOrchestrator) Delete(ctx context.Context, id string) error {
 		return err
 	}
 	r.Append(func() error {
-		_, err = p.processors.Create(ctx, id, proc.Plugin, proc.Parent, proc.Config, processor.ProvisionTypeAPI, proc.Condition)
-		return err
+		recreated, err := p.processors.Create(ctx, id, proc.Plugin, proc.Parent, proc.Config, processor.ProvisionTypeAPI, proc.Condition)
+		if err != nil {
+			return err
+		}
+		recreated.Config, recreated.CreatedAt = proc.Config, proc.CreatedAt // Create defaults Workers and resets CreatedAt
+		return nil
 	})
 
 	switch proc.Parent.Type {
 	case processor.ParentTypePipeline:
+		processorIDs := slices.Clone(pl.ProcessorIDs)
 		_, err = p.pipelines.RemoveProcessor(ctx, pl.ID, proc.ID)
 		if err != nil {
 			return cerrors.Errorf("could not add processor to pipeline: %w", err)
 		}
 		r.Append(func() error {
 			_, err := p.pipelines.AddProcessor(ctx, pl.ID, proc.ID)
+			pl.ProcessorIDs = processorIDs // AddProcessor appends; restore the original order
 			return err
 		})
 	case processor.ParentTypeConnector:
